@@ -461,6 +461,28 @@ def shrink(v, rounds=40, width=60):
     return v
 
 
+def source_step(run):
+    """Regenerate Gen/VisitorFacts.v from the source text of /repo (translators/tr_visitor.py) and build the
+    source-tied obligations Props/C10Src.v.  Inside common.Lock().  Returns the variant flags the text denotes."""
+    import tr_visitor
+    flags = None
+    try:
+        text, facts = tr_visitor.translate(common.REPO, None)
+        common.write_if_changed(os.path.join(common.COQ, "Gen", "VisitorFacts.v"), text)
+        flags = facts["flags"]
+    except tr_visitor.TranslateError as e:
+        run.broken.append(Broken("translator", "tr_visitor", {"error": str(e)}))
+    except (OSError, SyntaxError, ValueError, AttributeError, IndexError, KeyError) as e:
+        run.broken.append(Broken("translator", "tr_visitor", {"error": "%s: %s" % (type(e).__name__, e)}))
+    if flags is not None:
+        res = common.build_props("Props/C10Src.v")
+        run.add_build(res, "make -C coq Props/C10.vo Props/C10Src.vo (coqc 8.16.1, full .vo) + Print Assumptions per theorem")
+        run.coverage["source_text_variant"] = {f: flags[f] for f in FLAGS}
+    else:
+        run.coverage["obligations"] += len(common.theorems_in("Props/C10Src.v"))
+    return flags
+
+
 def check(run):
     thorough = run.tier == "thorough"
     n_random = 12000 if thorough else 1000
@@ -481,7 +503,8 @@ def check(run):
     with common.Lock():
         t_lock = time.time() - t0
         res = common.build_props("Props/C10.v", extra_targets=("Model/PatternShow.vo",))
-        run.add_build(res, "make -C coq Props/C10.vo (coqc 8.16.1, full .vo) + Print Assumptions per theorem")
+        run.add_build(res, "make -C coq Props/C10.vo Props/C10Src.vo (coqc 8.16.1, full .vo) + Print Assumptions per theorem")
+        src_flags = source_step(run)
     timing = {"lock_wait_s": round(t_lock, 1), "build_s": round(time.time() - t0 - t_lock, 1)}
     run.coverage["timing"] = timing
     t1 = time.time()
@@ -492,6 +515,12 @@ def check(run):
         cfg = {f: True for f in FLAGS}
 
     CURRENT["cfg"] = cfg
+    if src_flags is not None:
+        diff = {f: {"text": src_flags[f], "behaviour": cfg[f]} for f in FLAGS
+                if src_flags[f] is not None and (src_flags[f] == "true") != bool(cfg[f])}
+        if diff:
+            run.broken.append(Broken("correspondence", "the source text and the behaviour of the witnesses denote different variants",
+                                     {"differences": diff}))
     rng = run.rng
     # ---- cases
     cases = []
@@ -608,6 +637,8 @@ def check(run):
         "coq/Model/PatternSyntax.v: hand-written model of the grammar, the visitor and the printers (compared with the implementation each run)",
         "the ANTLR-generated lexer/parser of stix2patterns 2.1.2 (grammar unambiguity is not proved; real parse trees are compared with the generated trees)",
         "harness/impl/c10_impl.py: the reading of a pattern's meaning off real parse trees and off the object model (oracle)",
+        "translators/tr_visitor.py (source-text facts of pattern_visitor.py / patterns.py, fail closed) and the tables of "
+        "coq/Spec/PatternSource.v they are compared with",
     ]
     run.assumptions += [
         "valid pattern = accepted by the real parser and stix2patterns' duplicate-qualifier check, every timestamp a real calendar date, "
